@@ -48,8 +48,9 @@ package scen
 //	          every outcome multiset of size 3                                5*2*56 = 560
 //
 // quick = pairs + samenc + afterany + triples (duplicates by name removed), every schedule with
-// <= 2 preemptions. thorough (deep hooks) = all of the above + full + triples+ at <= 2
-// preemptions; the prefix-free pairs additionally at <= 3 preemptions and in ALL interleavings.
+// <= 2 preemptions. thorough = the quick menus again with deep hooks (the prefix-free pairs
+// additionally in ALL interleavings, which subsumes every preemption bound) + full + triples+
+// at <= 2 preemptions with the quick hooks (family c20Afull: a second worker build).
 //
 // Oracle: the differential per-request oracle against the SAME request alone on a FRESH server
 // (no prefix, no peer): status, headers, body (error id masked), what the error handler was
@@ -382,6 +383,9 @@ func mxPathClass(k mxKind) string {
 // ---- scenarios ---------------------------------------------------------------------------------
 
 type mxOpts struct {
+	// full: the scenario belongs to the big thorough-only products, explored by a second worker
+	// built WITHOUT deep hooks (family c20Afull)
+	full         bool
 	thoroughOnly bool
 	// thorough tier: preemption bound (0 = default 3) and whether ALL interleavings are explored too
 	thoroughBound int
@@ -392,8 +396,11 @@ func mxScenario(menu string, pre mxKind, o mxOpts, threads ...mxKind) vrt.Scenar
 	sort.Slice(threads, func(i, j int) bool { return threads[i].index() < threads[j].index() })
 	var names []string
 	sc := vrt.Scenario{Family: "c20A", SigName: "c20A/matrix", DiffClass: mxDiffClass, ThoroughOnly: o.thoroughOnly,
-		ThoroughBound: o.thoroughBound, NoThoroughComplete: !o.complete,
+		ThoroughBound: o.thoroughBound, NoThoroughComplete: !o.complete, NoShard: len(threads) == 2,
 		Setup: func() any { return mxMount() }}
+	if o.full {
+		sc.Family = "c20Afull"
+	}
 	if pre != mxNone {
 		sc.Prefix = func(env any) { _ = mxDo(env.(*mxEnv), pre, "pre") }
 	}
@@ -477,10 +484,10 @@ func matrixScenarios() []vrt.Scenario {
 			out = append(out, s)
 		}
 	}
-	// quick menus; in the thorough tier the prefix-free pairs also get bound 3 and all interleavings
+	// quick menus; in the thorough tier (deep hooks) the prefix-free pairs are also explored in all interleavings
 	for a := 0; a < len(kinds); a++ {
 		for b := a; b < len(kinds); b++ {
-			add(mxScenario("pairs", mxNone, mxOpts{complete: true, thoroughBound: 3}, kinds[a], kinds[b]))
+			add(mxScenario("pairs", mxNone, mxOpts{complete: true, thoroughBound: 2}, kinds[a], kinds[b]))
 		}
 	}
 	for e := 0; e < nE; e++ {
@@ -507,7 +514,7 @@ func matrixScenarios() []vrt.Scenario {
 	for _, pre := range append([]mxKind{mxNone}, kinds...) {
 		for a := 0; a < len(kinds); a++ {
 			for b := a; b < len(kinds); b++ {
-				add(mxScenario("full", pre, mxOpts{thoroughOnly: true, thoroughBound: 2}, kinds[a], kinds[b]))
+				add(mxScenario("full", pre, mxOpts{full: true, thoroughOnly: true, thoroughBound: 2}, kinds[a], kinds[b]))
 			}
 		}
 	}
@@ -516,7 +523,7 @@ func matrixScenarios() []vrt.Scenario {
 			for o1 := 0; o1 < nO; o1++ {
 				for o2 := o1; o2 < nO; o2++ {
 					for o3 := o2; o3 < nO; o3++ {
-						add(mxScenario("triples+", pre, mxOpts{thoroughOnly: true, thoroughBound: 2}, mxKind{e, o1}, mxKind{e, o2}, mxKind{e, o3}))
+						add(mxScenario("triples+", pre, mxOpts{full: true, thoroughOnly: true, thoroughBound: 2}, mxKind{e, o1}, mxKind{e, o2}, mxKind{e, o3}))
 					}
 				}
 			}
